@@ -3,7 +3,10 @@
 // must report it on every run (it cannot tell `\\"` from `\"`).
 package lookbehind
 
-import "strings"
+import (
+	"strings"
+	"unicode"
+)
 
 func EndOfQuoted(q string) int {
 	pos := 1
@@ -85,4 +88,38 @@ func ForwardDigits(i int) string {
 		buf = append(buf, byte('0'+i%10))
 	}
 	return string(buf)
+}
+
+// ByteSpaces / GuardedByteSpaces: controls for the byte-as-rune rule (C04/R8, C10/R7): the first classifies a lone byte,
+// the second only ASCII bytes.
+func ByteSpaces(s string) int {
+	n := 0
+	for i := 0; i < len(s); i++ {
+		if unicode.IsSpace(rune(s[i])) {
+			n++
+		}
+	}
+	return n
+}
+
+func GuardedByteSpaces(s string) int {
+	n := 0
+	for i := 0; i < len(s); i++ {
+		if b := s[i]; b < 0x80 && unicode.IsSpace(rune(b)) {
+			n++
+		}
+	}
+	return n
+}
+
+// UnshiftedSplice: positive control for the splice-order rule (C04/R9): positions recorded against the original string,
+// applied front to back without accumulating the change in length.
+func UnshiftedSplice(s string, pos []int, repl string) string {
+	shift := 0
+	for _, p := range pos {
+		q := p + shift
+		s = s[:q] + repl + s[q+2:]
+		shift = len(repl) - 2
+	}
+	return s
 }
